@@ -48,6 +48,7 @@ package diff
 //@   call (*Canonicalizer).CanonicalizeFunction assert [C17.cap] len(fn.Blocks) <= MaxFunctionBlocks
 //@   call computeVirtualControlFlow assert [C17.cap] len(fn.Blocks) <= MaxFunctionBlocks
 //@   ensures [C17.cap] true
+//@   ensures [C04.marker] len(fn.Blocks) > MaxFunctionBlocks ==> result.Fingerprint == "OVERSIZED"
 
 // ---- C10: reports do not depend on map iteration order
 //@ func MatchFunctionsByTopology$1
@@ -63,3 +64,42 @@ package diff
 //@   noframe
 //@   protocol-only C10
 //@   deterministic
+
+// ---- C04: instruction equivalence requires the same kind and the same operation-specific fields
+//@ func (*Zipper).areEquivalent
+//@   noframe
+//@   ghost opsOK bool
+//@   ghost operandsOK bool
+//@   init opsOK = false
+//@   init operandsOK = false
+//@   call (*Zipper).compareOps update opsOK = result
+//@   call (*Zipper).compareOperands update operandsOK = result
+//@   ensures [C04.equiv] result ==> opsOK && operandsOK
+//@   ensures [C04.equiv] result ==> purecall("reflect.TypeOf", a) == purecall("reflect.TypeOf", b)
+
+//@ func (*Zipper).compareOps
+//@   noframe
+//@   ensures [C04.ops] result && hasType(a, "*ssa.BinOp") && hasType(b, "*ssa.BinOp") ==> dyn(a, "*ssa.BinOp").Op == dyn(b, "*ssa.BinOp").Op
+//@   ensures [C04.ops] result && hasType(a, "*ssa.UnOp") && hasType(b, "*ssa.UnOp") ==> dyn(a, "*ssa.UnOp").Op == dyn(b, "*ssa.UnOp").Op && dyn(a, "*ssa.UnOp").CommaOk == dyn(b, "*ssa.UnOp").CommaOk
+//@   ensures [C04.ops] result && hasType(a, "*ssa.Field") && hasType(b, "*ssa.Field") ==> dyn(a, "*ssa.Field").Field == dyn(b, "*ssa.Field").Field
+//@   ensures [C04.ops] result && hasType(a, "*ssa.FieldAddr") && hasType(b, "*ssa.FieldAddr") ==> dyn(a, "*ssa.FieldAddr").Field == dyn(b, "*ssa.FieldAddr").Field
+//@   ensures [C04.ops] result && hasType(a, "*ssa.Extract") && hasType(b, "*ssa.Extract") ==> dyn(a, "*ssa.Extract").Index == dyn(b, "*ssa.Extract").Index
+//@   ensures [C04.ops] result && hasType(a, "*ssa.Alloc") && hasType(b, "*ssa.Alloc") ==> dyn(a, "*ssa.Alloc").Heap == dyn(b, "*ssa.Alloc").Heap
+//@   ensures [C04.ops] result && hasType(a, "*ssa.TypeAssert") && hasType(b, "*ssa.TypeAssert") ==> dyn(a, "*ssa.TypeAssert").CommaOk == dyn(b, "*ssa.TypeAssert").CommaOk
+
+// Oversized functions get the constant marker instead of a fingerprint.
+
+// ---- C09 / C04: the forward and reverse instruction maps stay in lock-step, and "preserved" means nothing is left over
+//@ pred lockstep(z *Zipper) = forall a: ssa.Instruction :: (a in z.instrMap) ==> (z.instrMap[a] in z.revInstrMap) && z.revInstrMap[z.instrMap[a]] == a
+
+//@ func (*Zipper).recordInstrMatch
+//@   requires [C09.maps] z != nil && z.instrMap != nil && z.revInstrMap != nil && z.instrMap != z.revInstrMap && lockstep(z)
+//@   requires [C09.maps] (old in z.instrMap) || !(new in z.revInstrMap)
+//@   modifies z.instrMap
+//@   modifies z.revInstrMap
+//@   ensures [C09.maps] lockstep(z) && (old in z.instrMap)
+//@   ensures [C09.maps] !(old in old(keys(z.instrMap))) ==> z.instrMap[old] == new && z.revInstrMap[new] == old
+
+//@ func (*Zipper).isolateDivergence
+//@   noframe
+//@   ensures [C04.iso] [C09.iso] result != nil && result.Preserved == (len(result.Added) == 0 && len(result.Removed) == 0)
